@@ -239,10 +239,32 @@ func (g *gen) clauses(b, d int) []*E {
 			h := parts[i] / 2
 			cl = append(cl, &E{K: KForClause, X: g.loopVars(h, d+1), Y: g.operand(parts[i]-h, d+1, ctxPrec(0), opOr)})
 		} else {
-			cl = append(cl, &E{K: KIfClause, X: g.operand(parts[i], d+1, ctxNoCond, opOr)})
+			cl = append(cl, &E{K: KIfClause, X: g.nocondTest(parts[i], d+1)})
 		}
 	}
 	return cl
+}
+
+// nocondTest generates the operand of a comprehension `if`: the context-dependent
+// production "Test without conditional" = lambda whose body is again such a
+// test | or-expression.  Every alternative is drawn explicitly, including chains
+// of 1..3 directly nested lambdas (their innermost body cannot be an
+// unparenthesised conditional).
+func (g *gen) nocondTest(b, d int) *E {
+	if g.r.Intn(3) != 0 {
+		return g.operand(b, d, ctxNoCond, opOr)
+	}
+	k := 1 + g.r.Intn(3)
+	body := g.operand(b/2, d+k, ctxNoCond, opOr)
+	for i := 0; i < k; i++ {
+		var ps []*E
+		if g.r.Intn(3) == 0 {
+			ps = g.params(1+g.r.Intn(2), d)
+		}
+		body = &E{K: KLambda, List: ps, X: body}
+	}
+	dist["shape:nocond-lambda-chain"]++
+	return body
 }
 
 func (g *gen) dictEntry(b, d int) *E {
@@ -303,7 +325,11 @@ func (g *gen) operand(b, d int, c ctx, parent *OpInfo) *E {
 			e = &E{K: KCond, X: g.operand(p[0], d+1, ctxPrec(0), opOr), Y: g.operand(p[1], d+1, ctxPrec(0), opOr), Z: g.operand(p[2], d+1, ctxTest, opOr)}
 		default:
 			h := (b - 1) / 2
-			e = &E{K: KLambda, List: g.params(h, d), X: g.operand(b-1-h, d+1, ctxTest, opOr)}
+			body := g.operand(b-1-h, d+1, ctxTest, opOr)
+			if g.r.Intn(3) == 0 {
+				body = &E{K: KLambda, X: body}
+			}
+			e = &E{K: KLambda, List: g.params(h, d), X: body}
 		}
 		if !fits(e, c) {
 			e = g.paren(e)
